@@ -63,6 +63,15 @@ int main(int argc, char** argv) {
   }
   // values arriving from MATLAB as double / other classes must convert like a C++ cast
   {
+    // (every number typed in MATLAB is a double: keys and sizes beyond 2^31 arrive this way)
+    double bigs[] = {2147483648.0, 3000000000.0, 4294967296.0, 1099511627776.0, 9007199254740992.0};
+    for (double v : bigs) {
+      mxArray* a = mxCreateDoubleScalar(v);
+      COUNT("from_matlab_double");
+      if (unwrap<size_t>(a) != (size_t)v) fail("unwrap<size_t>(large double scalar)", std::to_string(v));
+      if (unwrap<double>(a) != v) fail("unwrap<double>(large double scalar)", std::to_string(v));
+      mxDestroyArray(a);
+    }
     double vals[] = {0, 1, -1, 3, 255, 65536, 2147483647.0, -2147483648.0, 1e6};
     for (double v : vals) {
       mxArray* a = mxCreateDoubleScalar(v);
@@ -126,6 +135,20 @@ int main(int argc, char** argv) {
   for (int m = 0; m <= 9; m++) for (int n = 0; n <= 9; n++) {
     gtsam::Matrix A(m, n);
     for (int i = 0; i < m; i++) for (int j = 0; j < n; j++) A(i, j) = i * 1000 + j + 0.5;   // position-coded
+    if (m * n >= 2) {
+      // special values, compared bit by bit below: zeros of both signs, infinities, a denormal
+      gtsam::Matrix Z(m, n);
+      const double specials[] = {0.0, -0.0, 1.0 / 0.0, -1.0 / 0.0, 4.9406564584124654e-324, -2.5};
+      for (int i = 0; i < m; i++) for (int j = 0; j < n; j++) Z(i, j) = specials[(i * n + j) % 6];
+      mxArray* z = wrap<gtsam::Matrix>(Z);
+      gtsam::Matrix Z2 = unwrap<gtsam::Matrix>(z);
+      COUNT("roundtrip:Matrix-special-values");
+      for (int i = 0; i < m; i++) for (int j = 0; j < n; j++) {
+        double x = Z(i, j), y = Z2(i, j);
+        if (memcmp(&x, &y, 8) != 0) { fail("Matrix round trip changes the bits of an element (signed zero / infinity / denormal)", std::to_string(m) + "x" + std::to_string(n)); i = m; break; }
+      }
+      mxDestroyArray(z);
+    }
     mxArray* a = wrap<gtsam::Matrix>(A);
     COUNT("roundtrip:Matrix");
     std::string sh = std::to_string(m) + "x" + std::to_string(n);
